@@ -1,5 +1,6 @@
 import TinyVerif.Model.UnixStr
 import TinyVerif.Drv.Common
+import TinyVerif.Model.Io
 open TinyVerif TinyVerif.UnixStr
 
 def showErr : ErrKind → String
@@ -52,7 +53,16 @@ def binary (op : String) (a b : List Nat) : String :=
   match op with
   | "join_fmt" => withSelf a fun s => if isAscii b then showBytes "ok" (pathJoinFmt s b) else "bad-op"
   | "find_buf" => withSelf a fun s => showOptNat (findBuf s b)
-  | "match_str" => withSelf a fun s => if isAscii b then showTail (fun n => s!"val {n}") (matchUpToStr s b) else "bad-op"
+  | "match_str" => withSelf a fun s => if TinyVerif.Io.utf8Valid b then showTail (fun n => s!"val {n}") (matchUpToStr s b) else "bad-op"
+  | "find_alias" => withSelf a fun s =>
+      let off := b.foldl (fun acc x => acc * 256 + x) 0
+      if off ≥ a.length then "bad-op" else withSelf (a.drop off) fun e => showOptNat (find s e)
+  | "ends_with_alias" => withSelf a fun s =>
+      let off := b.foldl (fun acc x => acc * 256 + x) 0
+      if off ≥ a.length then "bad-op" else withSelf (a.drop off) fun e => showTail (fun v => if v then "true" else "false") (endsWith s e)
+  | "match_alias" => withSelf a fun s =>
+      let off := b.foldl (fun acc x => acc * 256 + x) 0
+      if off ≥ a.length then "bad-op" else withSelf (a.drop off) fun e => showTail (fun n => s!"val {n}") (matchUpTo s e)
   | "join" => withSelf a fun s => withSelf b fun e => showBytes "ok" (pathJoin s e)
   | "find" => withSelf a fun s => withSelf b fun e => showOptNat (find s e)
   | "ends_with" => withSelf a fun s => withSelf b fun e => showTail (fun v => if v then "true" else "false") (endsWith s e)
